@@ -87,6 +87,9 @@ func (in *Interp) callFn(fr *frame, fn *ssa.Function, args []Value, env []Value,
 			return st(in, fr, fn, args)
 		}
 	}
+	if r, done := in.tryReplace(fr, fn, args); done {
+		return r
+	}
 	if st, ok := stubs[name]; ok {
 		in.StubHit[name] = true
 		return st(in, fr, fn, args)
@@ -156,11 +159,24 @@ func (in *Interp) builtin(fr *frame, b *ssa.Builtin, args []Value, c *ssa.CallCo
 				return P.Const(64, 0)
 			}
 			return P.Const(64, uint64(x.size()))
+		case *ChanV:
+			if x == nil {
+				return P.Const(64, 0)
+			}
+			return P.Const(64, uint64(len(x.Buf)))
 		case nil:
 			return P.Const(64, 0)
 		}
+	case "close":
+		in.chanClose(fr, args[0])
+		return nil
 	case "cap":
 		switch x := args[0].(type) {
+		case *ChanV:
+			if x == nil {
+				return P.Const(64, 0)
+			}
+			return P.Const(64, uint64(x.Cap))
 		case SliceV:
 			if x.Grown {
 				return in.notEncodable("cap() of a slice whose capacity was chosen by append growth (implementation-defined)")
